@@ -948,6 +948,23 @@ def _lazy_getters(ctx, prog):
         ret_ok = bool(fills) and res.ret is fills[0].data["value"] or \
             res.ret is tm.attr(selfp, attr) or (
                 fills and res.attrs.get((selfp, attr)) is res.ret)
+        src_views = {"positions_xyz": (M,), "orientations_quat_wxyz": (M,),
+                     "poses_se3": (P, Q)}[name]
+        if not ok and v is not None and ret_ok and name != "positions_xyz" \
+                and all(any(x is tm.attr(selfp, sv_) for x in v.walk())
+                        for sv_ in src_views) and not any(
+                    is_call_to(x, "evo.core.transformations."
+                                  "quaternion_from_matrix",
+                               "evo.core.transformations.quaternion_matrix")
+                    for x in v.walk()):
+            # the conversion is re-implemented (batched eigen-decomposition,
+            # closed form ...) from the right source view: whether it agrees
+            # with the vendored conversion for every rotation (half turns,
+            # scaled blocks) is arithmetic this analysis does not model
+            ctx.undecidable("C08.4", f, f"lazy getter {name}: conversion "
+                            f"re-implemented without the vendored "
+                            f"quaternion helpers")
+            continue
         ctx.ob("C08.4", f, bool(ok) and bool(ret_ok),
                f"lazy getter {name} fills {attr} with the {what} and returns "
                f"it" if ok and ret_ok else
